@@ -33,16 +33,44 @@ ACK = bytes.fromhex('0000ff00ff00')
 ERRFRAME = bytes.fromhex('0000ff01ff7f8100')
 
 
+class WouldBlockForever(Exception):
+    """the driver waits without time limit for something the simulated peer never sends: reported to the
+    harness instead of hanging (legitimate only when the exchange was started with timeout=None)"""
+
+
 class VClock(object):
-    """virtual clock replacing the `time` module inside the driver modules"""
+    """virtual clock replacing the `time` module inside the driver modules; sleep() has the argument
+    checks of the real time.sleep and never really waits"""
+    LIMIT = 8000           # clock operations within one exchange before the run is declared endless
 
     def __init__(self):
         self.now = 1000.0
+        self.ops = 0
+
+    def restart(self):
+        self.ops = 0
+
+    def _tick(self):
+        self.ops += 1
+        if self.ops > self.LIMIT:
+            raise WouldBlockForever('simulated time: the exchange polls without end')
 
     def time(self):
+        self._tick()
+        self.now += 1e-6       # time passes between two looks at the clock
         return self.now
 
     def sleep(self, dt):
+        if not isinstance(dt, (int, float)):
+            raise TypeError("'%s' object cannot be interpreted as an integer or float" % type(dt).__name__)
+        if dt < 0:
+            raise ValueError('sleep length must be non-negative')
+        self._tick()
+        self.now += dt
+
+    def wait(self, dt):
+        """time passing inside a blocking transport call (not a driver call of time.sleep)"""
+        self._tick()
         if dt and dt > 0:
             self.now += dt
 
@@ -200,7 +228,7 @@ class HostSimBase(object):
         if self.gone:
             raise ioerr(errno.ENODEV)
         if not self.queue:
-            self.clock.sleep((timeout or 0) / 1000.0)
+            self.clock.wait((timeout or 0) / 1000.0)
             raise ioerr(errno.ETIMEDOUT)
         item = self.queue.pop(0)
         if isinstance(item, BaseException):
@@ -694,8 +722,8 @@ class UdpSim(object):
             self.inbox = []
             if timeout is None:
                 # a blocking wait that never ends; reported to the harness instead of hanging
-                raise RuntimeError('simulated select() would block forever')
-            self.clock.sleep(timeout + 0.001)
+                raise WouldBlockForever('simulated select() would block forever')
+            self.clock.wait(timeout + 0.001)
             return ([], [], [])
         return (list(rlist), [], [])
 
@@ -764,12 +792,12 @@ class FakeSerial(object):
             while self.sim.queue and not isinstance(self.sim.queue[0], BaseException):
                 self.buf += self.sim.queue.pop(0)
         if not self.buf:
-            self.sim.clock.sleep(self.timeout or 0)
+            self.sim.clock.wait(self.timeout or 0)
             return b''
         out = bytes(self.buf[:n])
         del self.buf[:n]
         if len(out) < n:
-            self.sim.clock.sleep(self.timeout or 0)      # the rest never arrives
+            self.sim.clock.wait(self.timeout or 0)      # the rest never arrives
         return out
 
 
